@@ -1,6 +1,8 @@
 (* C27 — integer rounding is exact.  Theorems only; proofs are in IntArith/*.v *)
-From Coq Require Import ZArith QArith.
-From OsmtV.IntArith Require Import DivModModel DivModProofs.
+From Coq Require Import ZArith QArith List.
+From OsmtV.IntArith Require Import DivModModel DivModProofs TightenModel TightenProofs
+  GcdNormModel GcdNormProofs DLModel DLProofs.
+Import ListNotations.
 Local Open Scope Z_scope.
 
 (* Constant folding of div and mod agrees with SMT-LIB Euclidean semantics, for all integers and
@@ -20,5 +22,132 @@ Proof.
 Qed.
 Print Assumptions divmod_axioms_characterise.
 
+(* The definitions DivModRewriter introduces (divmod_def, tied to the code by evaluation) hold of
+   exactly one pair (q, r): the SMT-LIB quotient and remainder. *)
+Theorem divmod_def_characterise : forall n d q r, d <> 0 ->
+  divmod_def n d q r = true <-> (q = smt_div n d /\ r = smt_mod n d).
+Proof. intros n d q r Hd. rewrite divmod_def_iff. exact (divmod_axioms_characterise n d q r Hd). Qed.
+Print Assumptions divmod_def_characterise.
+
+(* Bound tightening, LASolver::getBoundsValueForIntVar: for every integer v and rational c. *)
+Theorem tighten_strict : forall (v : Z) (c : Q),
+  ((inject_Z v < c)%Q <-> v <= bp_upper (bounds_int c true)) /\
+  (~ (inject_Z v < c)%Q <-> bp_lower (bounds_int c true) <= v).
+Proof. intros v c; split; [exact (tighten_strict_ub v c) | exact (tighten_strict_lb v c)]. Qed.
+Print Assumptions tighten_strict.
+
+Theorem tighten_nonstrict : forall (v : Z) (c : Q),
+  ((inject_Z v <= c)%Q <-> v <= bp_upper (bounds_int c false)) /\
+  (~ (inject_Z v <= c)%Q <-> bp_lower (bounds_int c false) <= v).
+Proof. intros v c; split; [exact (tighten_nonstrict_ub v c) | exact (tighten_nonstrict_lb v c)]. Qed.
+Print Assumptions tighten_nonstrict.
+
+(* LASolver::addBound: the bound asserted for the atom (c <= v resp. c <= -v) being true holds exactly
+   when the atom holds, the bound asserted for it being false exactly when it does not. *)
+Theorem tighten_addbound : forall (c : Q) (negated : bool) (v : Z),
+  (atom_holds c negated v <-> bound_holds (fst (add_bound c negated)) v) /\
+  (~ atom_holds c negated v <-> bound_holds (snd (add_bound c negated)) v).
+Proof. intros c n v; split; [exact (add_bound_pos c n v) | exact (add_bound_neg c n v)]. Qed.
+Print Assumptions tighten_addbound.
+
+(* lcm/gcd normalisation of an integer inequality  0 <= a1 x1 + ... + an xn + c  (rational ai <> 0,
+   rational c): for every integer assignment the normalised atom  k <= a1' x1 + ... + an' xn  is
+   equivalent, and its coefficients are integers. *)
+Theorem gcd_norm_equiv : forall (cs : list Q) (c : Q) (xs : list Z),
+  cs <> [] -> Forall (fun a => ~ (a == 0)%Q) cs ->
+  let (k, cs') := norm_ineq cs c in
+  ((0 <= eval cs xs + c)%Q <-> (inject_Z k <= eval cs' xs)%Q) /\
+  Forall (fun a => q_is_int a = true) cs'.
+Proof. exact gcd_norm_ineq_equiv. Qed.
+Print Assumptions gcd_norm_equiv.
+
+(* the same for equalities; a non-integral constant after normalisation gives `false`, rightly *)
+Theorem eq_norm_equiv : forall (flip : bool) (cs : list Q) (c : Q) (xs : list Z),
+  cs <> [] -> Forall (fun a => ~ (a == 0)%Q) cs ->
+  match norm_eq flip cs c with
+  | Some (l, cs') => ((0 == eval cs xs + c)%Q <-> (l == eval cs' xs)%Q) /\ Forall (fun a => q_is_int a = true) cs'
+  | None => ~ (0 == eval cs xs + c)%Q
+  end.
+Proof. exact gcd_norm_eq_equiv. Qed.
+Print Assumptions eq_norm_equiv.
+
+Theorem eq_norm_nonintegral_false : forall (flip : bool) (cs : list Q) (c : Q),
+  cs <> [] -> Forall (fun a => ~ (a == 0)%Q) cs -> norm_eq flip cs c = None ->
+  forall xs : list Z, ~ (0 == eval cs xs + c)%Q.
+Proof.
+  intros flip cs c Hne Hnz Hn xs. pose proof (gcd_norm_eq_equiv flip cs c xs Hne Hnz) as H.
+  rewrite Hn in H. exact H.
+Qed.
+Print Assumptions eq_norm_nonintegral_false.
+
+Theorem single_factor_leq_equiv : forall (a : Q) (x : Z),
+  (0 <= a * inject_Z x)%Q <-> 0 <= norm_single_leq a * x.
+Proof. exact norm_single_leq_equiv. Qed.
+Print Assumptions single_factor_leq_equiv.
+
+(* Negation of an integer difference constraint, Converter<SafeInt>::negate, with the machine guard
+   explicit: every in-range constant except PTRDIFF_MAX (where val+1 is signed overflow). *)
+Theorem dl_negate_int : forall x y c : Z, in_range c = true -> c <> PMAX ->
+  exists c', dl_negate c = Some c' /\ in_range c' = true /\ (~ (x - y <= c) <-> y - x <= c').
+Proof. exact DLProofs.dl_negate_int. Qed.
+Print Assumptions dl_negate_int.
+
+(* SafeInt checked addition / subtraction: exact when they return, and they throw exactly when the
+   exact result does not fit. *)
+Theorem safeint_add_exact : forall a b, in_range a = true -> in_range b = true ->
+  match safe_add a b with Some r => r = a + b /\ in_range r = true | None => in_range (a + b) = false end.
+Proof. exact safe_add_spec. Qed.
+Print Assumptions safeint_add_exact.
+
+Theorem safeint_sub_exact : forall a b, in_range a = true -> in_range b = true ->
+  match safe_sub a b with Some r => r = a - b /\ in_range r = true | None => in_range (a - b) = false end.
+Proof. exact safe_sub_spec. Qed.
+Print Assumptions safeint_sub_exact.
+
+(* Converter<SafeInt>::getValue goes through double.
+   Full statement (FALSE on the faithful model):  forall z, in_range z = true -> dl_conv z = Some z.
+   Provable part: constants of magnitude up to 2^53. *)
+Theorem dl_conv_exact_partial : forall z, Z.abs z <= 2 ^ 53 -> dl_conv z = Some z.
+Proof. exact dl_conv_exact_small. Qed.
+Print Assumptions dl_conv_exact_partial.
+
+Theorem dl_conv_refuted : exists z, in_range z = true /\ exists z', dl_conv z = Some z' /\ z' <> z.
+Proof. exact dl_conv_inexact. Qed.
+Print Assumptions dl_conv_refuted.
+
+(* ... and the inexact constant makes an unsatisfiable pair of difference constraints satisfiable
+   (DESIGN.md §9 #4:  x - y <= 2^53,  x - y >= 2^53 + 1). *)
+Theorem dl_conv_unsound_refuted : exists k1 k2 x y,
+  (forall x y : Z, ~ (x - y <= k1 /\ y - x <= k2)) /\
+  exists d1 d2, dl_conv k1 = Some d1 /\ dl_conv k2 = Some d2 /\ x - y <= d1 /\ y - x <= d2.
+Proof. exact dl_conv_unsound. Qed.
+Print Assumptions dl_conv_unsound_refuted.
+
+(* the proposed repair (exact conversion or rejection) satisfies the full statement *)
+Theorem dl_conv_fixed_exact : forall z,
+  match dl_conv_fixed z with Some d => d = z /\ in_range d = true | None => in_range z = false end.
+Proof. exact DLProofs.dl_conv_fixed_exact. Qed.
+Print Assumptions dl_conv_fixed_exact.
+
+(* non-vacuity: the hypotheses are satisfiable by non-trivial values *)
 Example fold_nonvacuous : fold_div (-7) (-2) = Some 4 /\ fold_mod (-7) (-2) = Some 1 /\ fold_div 7 (-2) = Some (-3).
+Proof. repeat split; vm_compute; reflexivity. Qed.
+Example divmod_def_nonvacuous : divmod_def (-7) (-2) 4 1 = true /\ divmod_def (-7) (-2) 3 (-1) = false.
+Proof. split; vm_compute; reflexivity. Qed.
+Example tighten_nonvacuous :
+  bounds_int (7 # 2) true = {| bp_upper := 3; bp_lower := 4 |} /\
+  bounds_int 4 true = {| bp_upper := 3; bp_lower := 4 |} /\
+  bounds_int (-7 # 2) false = {| bp_upper := -4; bp_lower := -3 |} /\
+  add_bound (7 # 2) true = (UB (-4), LB (-3)).
+Proof. repeat split; vm_compute; reflexivity. Qed.
+Example gcd_norm_nonvacuous :
+  norm_ineq [2#1; 4#1] (1#3) = (0, [1#1; 2#1]) /\            (* 0 <= 2x+4y+1/3  ~>  0 <= x+2y *)
+  norm_ineq [1#2; 1#3] 1 = (-6, [3#1; 2#1]) /\               (* 0 <= x/2+y/3+1  ~>  -6 <= 3x+2y *)
+  norm_eq false [2#1] 3 = None /\                             (* 0 = 2x+3  ~>  false *)
+  norm_eq true [-2#1; 6#1] (-4) = Some (-2#1, [1#1; -3#1]).  (* 0 = -2x+6y-4  ~>  -2 = x-3y *)
+Proof. repeat split; vm_compute; reflexivity. Qed.
+Example dl_nonvacuous :
+  dl_negate 5 = Some (-6) /\ dl_negate PMAX = None /\ safe_add PMAX 1 = None /\ safe_sub PMIN 1 = None /\
+  safe_add (-3) 5 = Some 2 /\ dl_conv (2 ^ 53 + 1) = Some (2 ^ 53) /\ dl_conv (2 ^ 63) = None /\
+  dl_conv (- 2 ^ 63) = Some (- 2 ^ 63).
 Proof. repeat split; vm_compute; reflexivity. Qed.
